@@ -628,10 +628,20 @@ DIAMOND = [(0, 2), (1, 3), (3, 1), (2, 0)]
 
 
 @st.composite
-def s_poly_shape(draw, offs, kinds=("box", "box", "tri", "tri", "L", "hole", "diamond", "two_row", "two_col", "two_diag")):
+def s_poly_shape(draw, offs, kinds=("box", "box", "tri", "tri", "L", "hole", "diamond", "two_row", "two_col", "two_diag", "two_tri_box", "two_box_tri")):
     kind = draw(st.sampled_from(list(kinds)))
     multi = kind.startswith("two")
-    if multi:
+    if kind in ("two_tri_box", "two_box_tri"):
+        # a triangle whose bounding box has an empty corner, and a second part sitting in that corner (either order):
+        # the tile in the corner is not touched by the triangle, but it is part of the answer
+        n = draw(st.sampled_from([2, 3, 3, 4]))
+        tri = [(0, 0), (0, n), (n, 0)]
+        box = [(n - 1, n - 1), (n - 1, n), (n, n), (n, n - 1)]
+        if draw(st.booleans()):
+            tri = [(n - x, y) for x, y in tri]
+            box = [(n - x, y) for x, y in box]
+        rings = [tri, box] if kind == "two_tri_box" else [box, tri]
+    elif multi:
         # two-part query: parts in the same tile row / column with whole tiles between them, or diagonal
         gap = draw(st.sampled_from([1, 1, 2, 3]))
         w = draw(st.sampled_from([1, 1, 2]))
